@@ -1,7 +1,11 @@
 #!/bin/sh
-# usage: tools/mutant.sh <patch> <property> [budget]   -- applies a patch to /repo, runs the quick check, reverts
+# usage: tools/mutant.sh <patch> <property> [budget]   -- applies a patch to /repo, runs the quick check, reverts.
+# Evidence and replay files of mutant runs go to a throw-away directory: /verif/evidence and
+# /verif/replays only ever describe runs on the tree under test.
 set -u
 P=$1; PROP=$2; B=${3:-20}
 git -C /repo apply "$(realpath $P)" || { echo "patch does not apply"; exit 3; }
-cd /verif && ./verif check "$PROP" --budget "$B" 2>&1 | grep -E "^(C[0-9]+ |violation|VIOLATION|VERIF-FAULT|KNOWN)" | cut -c1-400 | head -8
+T=$(mktemp -d /var/tmp/verif-mutant-XXXXXX)
+cd /verif && VERIF_EVIDENCE_DIR=$T/evidence VERIF_REPLAY_DIR=$T/replays ./verif check "$PROP" --budget "$B" 2>&1 | grep -E "^(C[0-9]+ |violation|VIOLATION|VERIF-FAULT|KNOWN)" | cut -c1-400 | head -8
 git -C /repo checkout -- .
+rm -rf "$T"
